@@ -505,6 +505,25 @@ func absReachN(fn *ssa.Function, sc *absScenario, goal func(ret *ssa.Return, eva
 				}
 			}
 			switch x := in.(type) {
+			case *ssa.UnOp:
+				// a load reads memory now: later stores on the path must not change what it yielded
+				if x.Op == token.MUL {
+					snap := false
+					switch a := x.X.(type) {
+					case *ssa.Alloc:
+						snap = true
+					case *ssa.FieldAddr:
+						_, tracked := sc.tracked[fieldName(a)]
+						snap = tracked && (sc.fieldOK == nil || sc.fieldOK(a))
+					}
+					if snap {
+						v := e.eval(x, path, 0)
+						if path.refine == nil {
+							path.refine = map[ssa.Value]absVal{}
+						}
+						path.refine[x] = v
+					}
+				}
 			case *ssa.Store:
 				if al, ok := x.Addr.(*ssa.Alloc); ok {
 					path.cells[al] = e.eval(x.Val, path, 0)
